@@ -81,6 +81,8 @@ func runSolver(ctx context.Context, sp solverSpec, file string, sec int) (string
 }
 
 // solve decides one query. want = "unsat" for proof obligations, "sat" for covers.
+// Stage 1 races z3 5.x under three random seeds (an unlucky seed is the usual reason
+// for a slow proof); stage 2 races further seeds, z3 4.8 and cvc5 with the long timeout.
 func solve(file string, quickSec, fullSec int, want string) *SolveResult {
 	res := &SolveResult{File: file}
 	if want == "sat" {
@@ -89,43 +91,54 @@ func solve(file string, quickSec, fullSec int, want string) *SolveResult {
 		res.Status, res.Solver, res.Ms, res.Output = st, solvers[0].name, ms, out
 		return res
 	}
-	// stage 1: fast attempt
-	st, out, ms := runSolver(context.Background(), solvers[0], file, quickSec)
-	res.Tried = append(res.Tried, fmt.Sprintf("%s:%s:%dms", solvers[0].name, st, ms))
-	if st == "unsat" || st == "sat" {
-		res.Status, res.Solver, res.Ms, res.Output = st, solvers[0].name, ms, out
+	seeded := func(seed int) solverSpec {
+		return solverSpec{fmt.Sprintf("z3-new/seed%d", seed), func(f string, sec int) []string {
+			return []string{"z3-new", fmt.Sprintf("-T:%d", sec), fmt.Sprintf("smt.random_seed=%d", seed), fmt.Sprintf("sat.random_seed=%d", seed), f}
+		}}
+	}
+	race := func(sps []solverSpec, sec int) bool {
+		ctx, cancel := context.WithCancel(context.Background())
+		defer cancel()
+		type r struct {
+			st, out, name string
+			ms            int64
+		}
+		ch := make(chan r, len(sps))
+		var wg sync.WaitGroup
+		for _, sp := range sps {
+			wg.Add(1)
+			go func(sp solverSpec) {
+				defer wg.Done()
+				st, out, ms := runSolver(ctx, sp, file, sec)
+				ch <- r{st, out, sp.name, ms}
+			}(sp)
+		}
+		go func() { wg.Wait(); close(ch) }()
+		decided := false
+		for x := range ch {
+			if x.st == "cancelled" {
+				continue
+			}
+			res.Tried = append(res.Tried, fmt.Sprintf("%s:%s:%dms", x.name, x.st, x.ms))
+			if decided {
+				continue
+			}
+			if x.st == "unsat" || x.st == "sat" {
+				res.Status, res.Solver, res.Ms, res.Output = x.st, x.name, x.ms, x.out
+				decided = true
+				cancel()
+				continue
+			}
+			if res.Status == "" || (x.st == "unknown" && res.Status != "unknown") {
+				res.Status, res.Output, res.Solver, res.Ms = x.st, x.out, x.name, x.ms
+			}
+		}
+		return decided
+	}
+	if race([]solverSpec{solvers[0], seeded(7919), seeded(104729)}, quickSec) {
 		return res
 	}
-	res.Status, res.Output, res.Ms, res.Solver = st, out, ms, solvers[0].name
-	// stage 2: race
-	ctx, cancel := context.WithCancel(context.Background())
-	defer cancel()
-	type r struct {
-		st, out, name string
-		ms            int64
-	}
-	ch := make(chan r, len(solvers))
-	var wg sync.WaitGroup
-	for _, sp := range solvers {
-		wg.Add(1)
-		go func(sp solverSpec) {
-			defer wg.Done()
-			st, out, ms := runSolver(ctx, sp, file, fullSec)
-			ch <- r{st, out, sp.name, ms}
-		}(sp)
-	}
-	go func() { wg.Wait(); close(ch) }()
-	for x := range ch {
-		res.Tried = append(res.Tried, fmt.Sprintf("%s:%s:%dms", x.name, x.st, x.ms))
-		if x.st == "unsat" || x.st == "sat" {
-			res.Status, res.Solver, res.Ms, res.Output = x.st, x.name, x.ms, x.out
-			cancel()
-			return res
-		}
-		if x.st == "unknown" && res.Status != "unknown" {
-			res.Status, res.Output, res.Solver, res.Ms = x.st, x.out, x.name, x.ms
-		}
-	}
+	race([]solverSpec{seeded(15485863), seeded(32452843), solvers[1], solvers[2]}, fullSec)
 	return res
 }
 
